@@ -44,6 +44,17 @@ BUILT = {
         note='Trusted: TLC, numpy FFT as used by the driver to apply the exact transfer function. Bounded: shapes <= 6 (quick) / 10 (thorough) per axis, '
              'rational Q with integer nQ, small rational menus for wavelength / spacing / distance; float32 only in the thorough tier.',
         technique='TLA+ specs (Dft.tla with exact cyclotomic unitarity laws, FreeSpace.tla rational phase table) checked by TLC; emitted configurations and metamorphic laws replayed into prysm'),
+    'C05': dict(
+        spec='Dft.tla',
+        text='TLC proves on the exact kernels that a field embedded in a longer zero-padded axis at the same spacing (Q scaled by n/n\') sees the same '
+             'kernel for every parity of the padding (EmbedLaw, which rests on the GridLib origin rule), that swapping axes swaps every per-axis public '
+             'argument (TransposeLaw), that to-mask-and-back = T^H diag(mask) T is the identity for an all-pass mask on the whole band (UnitaryLaw, shifted '
+             'kernels included) and is additive in the mask for every subset mask (MaskLaw, Babinet). Every emitted physically consistent 2-D configuration is '
+             'replayed as metamorphic behaviours (linearity, four embeddings, transposition) into focus_/unfocus_fixed_sampling with both methods, and '
+             'to_fpm_and_back / Wavefront.to_fpm_and_back / Wavefront.babinet are compared in value with the exact T^H diag(mask) T for all-pass, real and complex masks.',
+        note='Trusted: TLC, exact-kernel interpreter. Bounded: pupil axes <= 5 (quick) / 6, mask sizes <= 7, three nQ values, rational shifts; known finding: '
+             'to_fpm_and_back with method=czt and a non-zero shift (listed in known_findings.jsonl).',
+        technique='TLA+ spec (Dft.tla: EmbedLaw, TransposeLaw, MaskLaw, UnitaryLaw) checked by TLC; laws and exact values replayed into prysm as metamorphic behaviours'),
 }
 
 NOT_BUILT_REASON = 'not built yet in this round (specification planned in DESIGN.md section 4; never decided by another technique)'
